@@ -12,6 +12,11 @@
 import Wormhole.Ws
 
 namespace Wormhole
+
+def Op.isCrash : Op → Bool
+  | .crashIn _ _ => true
+  | _ => false
+
 namespace Chan
 
 /-- AUTOINCREMENT: ids in use are below the counter -/
